@@ -239,3 +239,35 @@ def r_mtv(idx, rep, rule="R-MTV"):
     ok = "np.argmin(" in txt and "self.faces[:self.n_faces,0]*self.faces[:self.n_faces,3]" in txt and "axis=1" in txt
     rep.check(ok, rule, ff.key + "|argmin over live faces of dot(v0, n)", ff.where,
               "closest face must be argmin over faces[:n_faces] of sum(v0 * normal, axis=1)")
+
+
+def r_loudcap(idx, rep, rule="R-LOUDCAP"):
+    """EPA's buffers have a fixed capacity.  Running out of room must be LOUD (the documented capacity assertion): a bare
+    `if n >= max: break` silently leaves a hole in the polytope, the closest face is never generated and EPA still reports success with
+    a vector that is too long."""
+    rep.rule(rule, "every capacity exit of the EPA buffers (`if n >= max: break/continue/return`) is accompanied by an assertion / raise of "
+                   "`n < max` in the same function: exhaustion is reported, never silently truncated", floor=1)
+    m = idx.module("distance3d.epa")
+    n_inst = 0
+    for f in m.functions.values():
+        asserts = set()
+        for st in ast.walk(f.node):
+            if isinstance(st, ast.Assert):
+                t = ncmp(st.test)
+                if t is not None and t[0] == "<":
+                    asserts.add((u(t[1]), u(t[2])))
+        for st in ast.walk(f.node):
+            if isinstance(st, ast.If) and st.body and isinstance(st.body[-1], (ast.Break, ast.Continue)):   # `return False` hands the condition to the caller
+                t = ncmp(st.test)
+                if t is None or t[0] != "<=":
+                    continue
+                cap, cnt = u(t[1]), u(t[2])          # cap <= n   i.e.  n >= cap
+                if "max" not in cap:
+                    continue
+                n_inst += 1
+                key = "%s|capacity exit on %s is loud" % (f.key, cnt)
+                rep.check((cnt, cap) in asserts, rule, key, "%s:%d" % (m.relpath, st.lineno),
+                          "`if %s:` leaves the loop when the buffer is full, but no `assert %s < %s` reports it: the remaining horizon edges are skipped silently, "
+                          "the polytope keeps a hole and EPA converges on a farther face while still returning success" % (u(st.test), cnt, cap), "asserted")
+    if n_inst == 0:
+        rep.error("R-LOUDCAP: no capacity exit found in distance3d.epa")
